@@ -46,6 +46,21 @@ def main(argv=None):
                           "the result depends on calls made earlier in the same process")
                     print("  " + hits[0]["msg"][:600])
                     return core.EXIT_VIOLATION
+                hist = blob.get("unit_history") or []
+                if hist:
+                    for u in hist:
+                        try:
+                            mod.replay_unit(u, ctx)
+                        except core.HarnessError:
+                            raise
+                    acc = mod.replay_unit(unit, ctx)
+                    hits = [v for v in acc.violations if v["key"].split(":")[-3:] == blob["key"].split(":")[-3:] or v["key"] == blob["key"]]
+                    if hits:
+                        print(f"VIOLATION property={pid} replay={a.replay}")
+                        print(f"  reproduces only after the {len(hist)} exploration units its worker process had run before (neither the case alone nor its "
+                              "unit alone violates the property in a fresh process): the result depends on the history of the process")
+                        print("  " + hits[0]["msg"][:600])
+                        return core.EXIT_VIOLATION
             print(f"{pid}: case in {a.replay} satisfies the property on {core.REPO}")
             return core.EXIT_OK
         ctx = core.Ctx(a.tier, a.seed, a.jobs)
